@@ -222,10 +222,12 @@ FlagsOK(op, w, got, fl) ==
   IN /\ w.k # "skip" => \A b \in dec : Bit(fl, b) = Bit(wfl, b)
      /\ (op = "tointv" => ~Bit(fl, F_ROUNDED) /\ ~Bit(fl, F_INEXACT))
 \* the implications C02 states between conditions
-FlagImpOK(got, fl) ==
-     /\ (got.f = FIN /\ Bit(fl, F_INEXACT)) => Bit(fl, F_ROUNDED)
+FlagImpRangeOK(fl) ==
      /\ Bit(fl, F_OVF) => Bit(fl, F_INEXACT)
      /\ Bit(fl, F_UNF) => (Bit(fl, F_SUBN) /\ Bit(fl, F_INEXACT))
+FlagImpOK(got, fl) ==
+     /\ (got.f = FIN /\ Bit(fl, F_INEXACT)) => Bit(fl, F_ROUNDED)
+     /\ FlagImpRangeOK(fl)
 
 \* C07: a finite result fits the context
 Fits(ctx, got) ==
